@@ -135,7 +135,7 @@ Example next_two_addresses_fault_10 :
 Proof. vm_compute. repeat split. discriminate. Qed.
 Example rename_writes : writes (mgr_tx [MRename 0 0 7]) s0 = 5%nat.
 Proof. vm_compute. reflexivity. Qed.
-Example new_scope_writes : writes (mgr_tx [MNewScope 4]) s0 = 17%nat.
+Example new_scope_writes : writes (mgr_tx [MNewScope 4]) s0 = 18%nat.
 Proof. vm_compute. reflexivity. Qed.
 
 (** a small universe: tx 2 spends an outside output and pays the wallet twice *)
